@@ -4,7 +4,7 @@
  *   ut_strdup / ut_memdup   TRUSTED(common/util.c): malloc + copy, never fail (XCM aborts on OOM by design)
  *   strtol                  TRUSTED(glibc strtol): EXACT model for base 10 in the C locale (white space, optional sign,
  *                           digits, saturation to LONG_MIN/LONG_MAX); CBMC's own model stops after 31 characters.
- *                           Loops strtol.0 (white space) and strtol.1 (digits) are closed by `pre-unwind:`.
+ *   strlen                  NOT trusted: own body, see below
  *   snprintf                TRUSTED(glibc snprintf): EXACT text for the four call shapes of attr_path.c
  *                           ("%zd" | "%s" | "%c%s" | "%c%zd%c"), selected by argument count/type through the macro
  *                           in harness/attrpath/_unit.h.  At most size-1 bytes and a NUL are written, the would-be
@@ -13,6 +13,27 @@
 #ifndef XV_ATTRPATH_ENV_H
 #define XV_ATTRPATH_ENV_H
 #include <limits.h>
+
+/* ghost xv_ap_base/xv_ap_q and the layout constants: harness/attrpath/_ghost.h (included by the unit headers) */
+
+/* strlen: for a pointer into the string under parse the answer is AP_END - offset.  This is NOT trusted: both facts it
+ * rests on (NUL at AP_END, no NUL at the arbitrary position xv_ap_q in between) are asserted at every call, which
+ * proves them for every position.  Why: a read at a symbolic offset of a 300-byte object costs ~60k clauses and the
+ * library loop does 300 of them per call.  Every other argument takes the ordinary loop (strlen.0, `pre-unwind:`). */
+size_t strlen(const char *s)
+{
+    if (xv_ap_base != NULL && __CPROVER_same_object(s, xv_ap_base) && __CPROVER_OBJECT_SIZE(xv_ap_base) == AP_STR_MAX) {
+        size_t off = (size_t)__CPROVER_POINTER_OFFSET(s);
+        __CPROVER_assert(off <= AP_END, "XV strlen shortcut: pointer inside the string object");
+        __CPROVER_assert(xv_ap_base[AP_END] == 0, "XV strlen shortcut: NUL at the end of the object");
+        __CPROVER_assert(!(xv_ap_q >= off && xv_ap_q < AP_END) || xv_ap_base[xv_ap_q] != 0, "XV strlen shortcut: no NUL before the end (arbitrary position)");
+        return AP_END - off;
+    }
+    size_t n = 0;
+    while (s[n] != '\0')
+        n++;
+    return n;
+}
 
 /* TRUSTED(common/util.c) ut_strdup: strdup(3) that never fails */
 char *ut_strdup(const char *str)
@@ -34,29 +55,42 @@ void *ut_memdup(const void *ptr, size_t size)
     return copy;
 }
 
-/* ---- strtol */
+/* ---- strtol (one pass, one read per character; no division, no variable multiplication: a 64-bit divider per unwound
+ * iteration dominated the formula).  The loop strtol.0 carries a loop contract (DFCC jobs: one read at a symbolic
+ * offset instead of 256); plain CBMC jobs close it with `pre-unwind:`.  The invariant's in-bounds part holds for
+ * strings whose NUL is the last byte of their object (the layout of this unit); for any other argument it FAILS as an
+ * obligation, it is not assumed. */
 long xv_ap_strtol_val;      /* ghost: value returned by the last strtol */
 size_t xv_ap_strtol_used;   /* ghost: number of characters it consumed (end - nptr) */
 long strtol(const char *nptr, char **endptr, int base)
 {
     __CPROVER_assert(base == 10, "XV strtol model covers base 10 only");
-    size_t i = 0;
-    while (nptr[i] == ' ' || (nptr[i] >= '\t' && nptr[i] <= '\r'))
-        i++;
-    _Bool neg = 0;
-    if (nptr[i] == '-') { neg = 1; i++; }
-    else if (nptr[i] == '+') i++;
-    /* (no division, no variable multiplication: a 64-bit divider per unwound iteration dominated the formula) */
+    size_t i;
+    size_t room = __CPROVER_OBJECT_SIZE(nptr) - (size_t)__CPROVER_POINTER_OFFSET(nptr);
+    _Bool lead = 1, neg = 0, any = 0, ovf = 0;
     unsigned long acc = 0;
-    _Bool any = 0, ovf = 0;
-    while (nptr[i] >= '0' && nptr[i] <= '9') {
-        unsigned long d = (unsigned long)(nptr[i] - '0');
+    for (i = 0; ; i++)
+    __CPROVER_assigns(i, lead, neg, any, ovf, acc)
+    __CPROVER_loop_invariant(room >= 1 && i <= room - 1)
+    __CPROVER_loop_invariant((lead ==> (!neg && !any && !ovf && acc == 0)) && (any ==> !lead))
+    __CPROVER_loop_invariant(xv_ap_q < i ==> (AP_SPACE(nptr[xv_ap_q]) || nptr[xv_ap_q] == '-' || nptr[xv_ap_q] == '+' || AP_DIGIT(nptr[xv_ap_q])))
+    __CPROVER_loop_invariant((any && i >= 1) ==> AP_DIGIT(nptr[i - 1]))
+    __CPROVER_decreases(room - i)
+    {
+        char c = nptr[i];
+        if (lead) {
+            if (AP_SPACE(c)) continue;
+            lead = 0;
+            if (c == '-') { neg = 1; continue; }
+            if (c == '+') continue;
+        }
+        if (!AP_DIGIT(c)) break;
+        unsigned long d = (unsigned long)(c - '0');
         if (acc > (unsigned long)LONG_MAX / 10) ovf = 1;          /* acc * 10 would already exceed LONG_MAX + 1 */
         else acc = (acc << 3) + (acc << 1) + d;                   /* <= 9223372036854775809, no wrap-around */
         any = 1;
-        i++;
     }
-    if (!any) i = 0;
+    if (!any) i = 0;                                               /* no digits: nothing consumed */
     long v;
     if (neg) {
         if (ovf || acc >= (unsigned long)LONG_MAX + 1) v = LONG_MIN;
